@@ -5,6 +5,7 @@ import (
 	"github.com/orda-io/orda/client/pkg/errors"
 	"github.com/orda-io/orda/client/pkg/iface"
 	"github.com/orda-io/orda/client/pkg/orda"
+	"github.com/orda-io/orda/client/pkg/vhook"
 
 	"github.com/orda-io/orda/server/constants"
 	"github.com/orda-io/orda/server/managers"
@@ -86,6 +87,7 @@ func (its *Manager) UpdateSnapshot() errors.OrdaError {
 		return errors.ServerUpdateSnapshot.New(its.ctx.L(), "try lock failure")
 	}
 	defer lock.Unlock()
+	vhook.At("snap.update.locked", its.getLockKey())
 	its.ctx.L().Infof("BEGIN UPD_SNAP: '%v'", its.datatypeDoc.Key)
 	datatype, lastSseq, err := its.GetLatestDatatype()
 	if err != nil {
